@@ -1414,6 +1414,13 @@ impl Writer {
         .map(RtpsReaderProxy::acked_up_to_before)
         .min()
         .unwrap_or_else(|| self.history_buffer.last_change_sequence_number().plus_1());
+      // A reader may claim to have received more than we have ever written. Do not
+      // let that push the cleaning point beyond what the history buffer contains,
+      // or nothing gets cleaned until the writer catches up with the claim.
+      let acked_by_all_readers = min(
+        acked_by_all_readers,
+        self.history_buffer.last_change_sequence_number().plus_1(),
+      );
       // If all readers have acked all up to before 5, and depth is 5, we need
       // to keep samples 0..4, i.e. from acked_up_to_before - depth .
       max(
